@@ -271,15 +271,32 @@ def handler_constants(R, key, limit=16):
         except Exception:
             _CONST_CACHE[path] = {}
         else:
+            import importlib
             funcs = {}
+            modconst = {}
+            for node in tree.body:                           # module-level NAME = <int literal>
+                if isinstance(node, ast.Assign) and isinstance(node.value, ast.Constant) and isinstance(node.value.value, int):
+                    for t in node.targets:
+                        if isinstance(t, ast.Name):
+                            modconst[t.id] = node.value.value
             for node in tree.body:
-                if isinstance(node, ast.FunctionDef):
+                if isinstance(node, (ast.FunctionDef, ast.ClassDef)):     # a dataclass stands for its methods (__str__)
                     consts, calls = set(), set()
                     for sub in ast.walk(node):
                         if isinstance(sub, (ast.Compare, ast.BinOp, ast.BoolOp, ast.IfExp, ast.If, ast.Dict)):
                             for c in ast.walk(sub):
                                 if isinstance(c, ast.Constant) and isinstance(c.value, int) and not isinstance(c.value, bool):
                                     consts.add(c.value)
+                                elif isinstance(c, ast.Name) and c.id in modconst:
+                                    consts.add(modconst[c.id])
+                                elif isinstance(c, ast.Attribute) and isinstance(c.value, ast.Name) and c.attr.isupper() \
+                                        and c.value.id in ('socket', 'errno', 'signal', 'stat', 'os', 'fcntl', 'termios'):
+                                    try:                     # a constant of a standard module, as this interpreter has it
+                                        v = getattr(importlib.import_module(c.value.id), c.attr)
+                                        if isinstance(v, int):
+                                            consts.add(int(v))
+                                    except Exception:        # noqa
+                                        pass
                         if isinstance(sub, ast.Name):
                             calls.add(sub.id)
                     funcs[node.name] = (consts, calls)
@@ -293,5 +310,5 @@ def handler_constants(R, key, limit=16):
         seen.add(f)
         out |= funcs[f][0]
         todo += [c for c in funcs[f][1] if c in funcs]
-    out = sorted(v for v in out if 0 <= v < 2 ** 64 and v > 3)
+    out = sorted(v for v in out if 3 < v < 2 ** 64)
     return out[:limit]
